@@ -23,10 +23,10 @@ var (
 		"inet6", "rose", "netbeui", "security", "key", "netlink", "packet", "ash", "econet", "atmsvc", "rds",
 		"sna", "irda", "pppox", "wanpipe", "llc", "ib", "mpls", "can", "tipc", "bluetooth", "iucv", "rxrpc",
 		"isdn", "phonet", "ieee802154", "caif", "alg", "nfc", "vsock", "kcm", "qipcrtr", "smc", "xdp", "mctp"}
-	reqNetType    = []string{"stream", "dgram", "seqpacket", "rdm", "raw", "packet"}
-	reqNetProto   = []string{"tcp", "udp", "icmp"}
-	reqSignalAcc  = []string{"r", "w", "rw", "read", "write", "send", "receive"}
-	reqSignalSet  = []string{"abrt", "alrm", "bus", "chld", "cont", "emt", "exists", "fpe", "hup", "ill", "int",
+	reqNetType   = []string{"stream", "dgram", "seqpacket", "rdm", "raw", "packet"}
+	reqNetProto  = []string{"tcp", "udp", "icmp"}
+	reqSignalAcc = []string{"r", "w", "rw", "read", "write", "send", "receive"}
+	reqSignalSet = []string{"abrt", "alrm", "bus", "chld", "cont", "emt", "exists", "fpe", "hup", "ill", "int",
 		"io", "kill", "pipe", "prof", "pwr", "quit", "segv", "stkflt", "stop", "stp", "sys", "term", "trap",
 		"ttin", "ttou", "urg", "usr1", "usr2", "vtalrm", "winch", "xcpu", "xfsz", "rtmin+0", "rtmin+1",
 		"rtmin+2", "rtmin+8", "rtmin+31", "rtmin+32"}
